@@ -15,14 +15,19 @@ func genC02() *rapid.Generator[Case] {
 		c := Case{Cfg: genConfig([]int{2}, []int64{120, 200, 333}).Draw(t, "cfg")}
 		bucket := rapid.SampledFrom([]string{"b", "bk", "c"}).Draw(t, "bucket")
 		buckets := []string{bucket}
-		keys := genKeys(keyAlphabet, 2, 7, 3).Draw(t, "keys")
-		n := rapid.IntRange(1, 25).Draw(t, "nsteps")
+		shape := genKeyShape(t, keyAlphabet, 2, 7, 3, 4, false)
+		keys := shape.Keys
+		maxSteps := 25
+		if shape.Kind == "bulk" {
+			maxSteps = 10
+		}
+		n := rapid.IntRange(1, maxSteps).Draw(t, "nsteps")
 		for i := 0; i < n; i++ {
 			if rapid.IntRange(0, 99).Draw(t, "isreopen") < 20 {
 				c.Steps = append(c.Steps, Step{K: "reopen"})
 				continue
 			}
-			nops := rapid.IntRange(1, 4).Draw(t, "nops")
+			nops := rapid.IntRange(1, shape.MaxOps).Draw(t, "nops")
 			st := Step{K: "tx", Managed: rapid.Bool().Draw(t, "managed")}
 			for j := 0; j < nops; j++ {
 				st.Ops = append(st.Ops, genKVWrite(buckets, keys, true).Draw(t, "op"))
@@ -31,6 +36,9 @@ func genC02() *rapid.Generator[Case] {
 		}
 		bounds := boundsOf(keys)
 		nr := rapid.IntRange(2, 5).Draw(t, "nreads")
+		if shape.Kind != "small" {
+			nr += 8
+		}
 		var reads []Op
 		for i := 0; i < nr; i++ {
 			s := rapid.SampledFrom(bounds).Draw(t, "s")
